@@ -37,6 +37,19 @@ type c08Case struct {
 	Sites    []c08Site `json:"sites"`
 	Src      string    `json:"source"`
 	Schedule []int     `json:"schedule,omitempty"`
+	Syms     []string  `json:"symbols,omitempty"` // generator sentence (second phase): judged against the grammar model
+	Layout   string    `json:"layout,omitempty"`
+}
+
+// c08GenRender rebuilds the rendered sentence of a generator case.
+func c08GenRender(c c08Case) ([]sym, gramResult, rendered) {
+	ss := syms(c.Syms...)
+	m := gramParse(ss)
+	if c.Layout == "multi-line" && m.ok {
+		ss = multiLine(ss, m)
+		m = gramParse(ss)
+	}
+	return ss, m, render(ss)
 }
 
 // templates: lines of text; @H marks a here-document site
@@ -177,6 +190,17 @@ func c08Check(c c08Case, cmds []ast.Command, err error) string {
 }
 
 func c08Body(c c08Case) func(afterReturn *bool) string {
+	if len(c.Syms) > 0 {
+		ss, m, r := c08GenRender(c)
+		return func(afterReturn *bool) string {
+			rd := &lateReader{r: strings.NewReader(r.src), afterReturn: afterReturn}
+			cmds, comments, err := parser.ParseCommands(nil, "t", rd)
+			if _, d := c02Judge(ss, m, r, parseObs{cmds: cmds, comments: comments, err: err}); d != "" {
+				return "BAD: " + d
+			}
+			return fmt.Sprintf("OK consumed=%d %s", len(r.src)-rd.r.Len(), dumpAST(cmds, true))
+		}
+	}
 	return func(afterReturn *bool) string {
 		rd := &lateReader{r: strings.NewReader(c.Src), afterReturn: afterReturn}
 		cmds, _, err := parser.ParseCommands(nil, "t", rd)
@@ -331,14 +355,43 @@ func c08Run(w *W) {
 			c08Explore(w, c, bound, maxExec)
 		}
 	}
+	// second phase: every sentence of the derivation generator that carries a here-document (lists of leaves, every
+	// compound form with here-documents in conditions and bodies, a here-document earlier on the line than a compound
+	// command, closers directly after a redirected compound), in one-line and multi-line layout, under every schedule
+	// with ≤ 1 preemption; the oracle is the grammar model's AST (bodies attached to their operators)
+	seen := map[string]bool{}
+	derivations(w.thorough(), func(name string, texts []string) {
+		if name == "WN" || name == "WG" || name == "W" || name == "D3" || (name == "D2" || name == "DC") && !w.thorough() {
+			return
+		}
+		if !hasHere(syms(texts...)) {
+			return
+		}
+		key := strings.Join(texts, "\x00")
+		if seen[key] || !w.Mine() || w.TimeUp() {
+			seen[key] = true
+			return
+		}
+		seen[key] = true
+		for _, lay := range []string{"one-line", "multi-line"} {
+			c := c08Case{Template: -1, Syms: append(append([]string{}, texts...), "\n"), Layout: lay}
+			ss, m, r := c08GenRender(c)
+			if !m.ok || m.dontcare != "" || lexicallyEntangled(ss) || lay == "multi-line" && r.src == render(syms(c.Syms...)).src {
+				continue
+			}
+			c.Src = r.src
+			w.Count("generator_sentences_with_here_documents", 1)
+			c08Explore(w, c, 1, maxExec)
+		}
+	})
 }
 
 func init() {
 	register(&check{
 		id:    "C08",
 		level: "model_checking",
-		rule: "32 host templates with 1–3 here-document sites (simple command, both sides of a pipe, lists, every compound form, function body, compound redirection, inside $( ) and backquotes, before && / | + newline, numbered, several on one line and on different lines) × {<<, <<- with 0–3 tabs before the delimiter line} × delimiters {E, 'E', \"E\", E\\F} × bodies from the 12-line menu " +
-			"{empty, x, 'E ', ' E', EE, tab+x, tab+E, $v, $(c), `c`, \\$v, a\\b} (one-site: all sequences ≤ 2 lines; two sites: ≤ 1 line each; three sites: 8 variants each); every program under ALL schedules of the lexer/parser pair (one site) or all schedules with ≤ 1 preemption (more sites)",
+		rule: "37 host templates with 1–3 here-document sites (simple command, both sides of a pipe, lists, every compound form, function body, compound redirection, inside $( ) and backquotes, before && / | + newline, numbered, several on one line and on different lines) × {<<, <<- with 0–3 tabs before the delimiter line} × delimiters {E, 'E', \"E\", E\\F} × bodies from the 12-line menu " +
+			"{empty, x, 'E ', ' E', EE, tab+x, tab+E, $v, $(c), `c`, \\$v, a\\b} (one-site: all sequences ≤ 2 lines; two sites: ≤ 1 line each; three sites: 8 variants each); every program under ALL schedules of the lexer/parser pair (one site) or all schedules with ≤ 1 preemption (more sites); second phase: every sentence of the derivation generator that carries a here-document (D0, D1, DH; thorough D2, DC) in one-line and multi-line layout under all schedules with ≤ 1 preemption, judged against the grammar model's AST",
 		assume: []string{"backslash-newline inside bodies is outside the alphabet (POSIX removes it, 'byte for byte' cannot be demanded there)", "scheduler as in C06 (e2.go)"},
 		run:    c08Run,
 		replay: func(raw json.RawMessage) error {
